@@ -109,9 +109,15 @@ def compare(ctx, cases, impl, model, state, tag):
             ctx.tie_ok = False; ctx.broken.append({"kind": "spec kernel area is not 1", "area": area, "line": n})
         K = d0["nknots"] - d0["order"] - 1 + 4
         allzero = all(int(z) in (0, 0x80000000) for z in si["co"])
+        rho = sorted(a + b for a in d0["knots"] for b in case["kernel_knots"])
+        Smax = max([frac(pt[3*j+1]) for j in range(len(vals)) if 3*j+2 < len(pt)] + [Fraction(0)])
         for j, v in enumerate(vals):
             if v == "reject": continue
             if 3*j+2 >= len(pt): break
+            if rho.count(case["points"][j][dim]) >= 2:
+                # x sits exactly on a repeated knot of the new vector (coinciding pairwise sums): the evaluator divides
+                # 0/0 on the degenerate interval (C01's domain, measure zero) -- not part of this comparison
+                state["skipped_repeated_knot"] += 1; continue
             state["evals"] += 1
             spec, S, ex = frac(pt[3*j]), frac(pt[3*j+1]), frac(pt[3*j+2])
             vd, vf = [dbl(z) for z in v.split(":")]
@@ -123,18 +129,25 @@ def compare(ctx, cases, impl, model, state, tag):
                 err = None
             else:
                 err = abs(Fraction(vd) - spec)
-            bound = K * EPS * S
-            if S != 0 and err is not None:
-                r = float(err / (EPS * S))
+            Sf = S + Smax / 2**16      # absolute floor 2^-40*max S: the stored knots are the rounded sums
+            bound = K * EPS * Sf
+            if Sf != 0 and err is not None:
+                r = float(err / (EPS * Sf))
                 if r > state["max_ratio"]: state["max_ratio"] = r; state["max_ratio_at"] = {"orders": [d["order"] for d in case["dims"]], "dim": dim, "n": nk, "x": case["points"][j], "K": K}
             # operator() works in float: its own envelope is C01's business; sanity only (same table, same point)
             if err is None or err > bound:
                 sig = "order0-all-zero" if (d0["order"] == 0 and allzero and spec != 0) else "value"
+                if err is not None and spec != 0 and abs(Fraction(vd) + spec) <= bound and d0["order"] % 2 == 0: sig = "even-order-negated"
+                # pure round-off of the modelled operation sequence: the C++ is bit-identical to the model at F32 *and*
+                # the same model in exact arithmetic equals the exact integral for this very input
+                if sig == "value" and not (set(tie_bad) & {"dims", "kn", "bl", "co"}) and ex == spec and err is not None: sig = "roundoff-amplification"
                 ctx.report(sig, {"case": case, "case_line": c, "x": case["points"][j], "impl_value": vd, "spec": float(spec), "S": float(S), "K": K, "all_coefficients_zero": allzero, "line": n,
                                  "replay_cmd": "python3 bin/check.py C14 --replay <this file>"},
                            "C14: convolved table at x=%r gives %r, exact convolution integral is %r (|diff| = %.3g > %d*2^-24*S = %.3g)%s" % (
                                case["points"][j], vd, float(spec), float(err) if err is not None else float("nan"), K, float(bound),
-                               "; every convolved coefficient is zero (order 0: factorial(0))" if sig == "order0-all-zero" else ""))
+                               "; every convolved coefficient is zero (order 0: factorial(0))" if sig == "order0-all-zero" else
+                               "; the value is the NEGATIVE of the convolution (even order: `if (k % 2 != 0) norm *= -1`)" if sig == "even-order-negated" else
+                               "; round-off of the double-precision divided differences (C++ bit-identical to the model, exact model equals the integral)" if sig == "roundoff-amplification" else ""))
             else:
                 key = (n, tag, j)
                 if S != 0: state["seen"].add((c[:200], j))
@@ -165,9 +178,14 @@ def run_files(ctx, exe, ncases, npts, tag, state, replay_case=None):
     return st
 
 def new_state():
-    return {"evals": 0, "seen": set(), "max_ratio": 0.0, "max_ratio_at": None, "exact_mismatch": 0}
+    return {"evals": 0, "seen": set(), "max_ratio": 0.0, "max_ratio_at": None, "exact_mismatch": 0, "skipped_repeated_knot": 0}
 
 def finish_cov(ctx, state, dist):
+    if not ctx.tie_ok and ctx.broken:
+        # a broken correspondence is always shown, also when property violations were reported
+        kinds = sorted({b.get("kind", "?") + (":" + ",".join(b["sections"]) if "sections" in b else "") for b in ctx.broken if isinstance(b, dict)})
+        ctx.violation({"broken": ctx.broken, "replay_cmd": "VERIF_SEED=%d python3 bin/check.py C14 --tier %s" % (ctx.seed, ctx.tier)},
+                      "model/implementation correspondence of convolve no longer holds (%s): %s" % ("; ".join(kinds), json.dumps(ctx.broken[0], default=str)[:400]), nfi=True)
     ctx.coverage["evaluations"] = state["evals"]
     ctx.coverage["distinct_nontrivial"] = len(state["seen"])
     ctx.coverage["rule"] = ("cases (table, dimension, kernel, points) drawn from VERIF_SEED by harness/c14_harness.cpp; an evaluation is non-trivial when the lookup on the "
@@ -175,7 +193,8 @@ def finish_cov(ctx, state, dist):
     ctx.coverage["input_distribution"] = dist
     ctx.coverage["max_error_over_2^-24_S"] = state["max_ratio"]
     ctx.coverage["max_error_at"] = state["max_ratio_at"]
-    ctx.coverage["envelope"] = "|ndsplineeval<double>(convolved table, x) - specConv(x)| <= K * 2^-24 * S, K = naxes_old[dim] + 4, S = specConv with |coefficients|"
+    ctx.coverage["points_on_repeated_new_knot_skipped"] = state["skipped_repeated_knot"]
+    ctx.coverage["envelope"] = "|ndsplineeval<double>(convolved table, x) - specConv(x)| <= K * 2^-24 * S, K = naxes_old[dim] + 4, S = specConv with |coefficients| (+ 2^-16 of the largest S of the case as absolute floor)"
     ctx.assumptions += [
         "table knots in the convolved dimension and kernel knots strictly increasing and finite (divided differences divide by knot differences); n >= 2 kernel knots",
         "order + n - 1 <= 12 so that the unsigned factorials do not wrap (factorialC is modelled mod 2^32 and compared for n <= 16)",
